@@ -206,6 +206,14 @@ class Engine(object):
             nm = name if len(ts) == 1 else '%s[%d]' % (name, k)
             self.obligations.append(Obligation('%s#p%d' % (nm, self.paths), self.pc, t, self.paths, kind))
 
+    def shape(self, name, cond):
+        """an obligation about how the code under check is ARRANGED (a block was located, a callee is reached exactly once): the proof that follows depends on it,
+        the property does not.  Proved when it holds; when it fails the group's replay decides (failing input -> violation, none -> undecided)."""
+        self.prove(name, cond, kind='shape')
+        if any(t.op == 'bconst' and not t.args[0] for t in self._cond_terms(cond)):
+            # nothing that follows in this harness is meaningful for this source
+            raise LeftFragment('the code is not arranged as the proof of %s expects' % name)
+
     def prove_eq(self, name, a, b):
         """element-wise equality of two (arrays of) symbolic values; shapes must agree"""
         a = symnp.asarray(a)
